@@ -949,8 +949,9 @@ fn exec_op<P: Payload>(cx: &mut Ctx<P>, gi: u32, slot: usize, k: K, op: Op) -> R
 
 fn alone<R>(gi: u32, a: u8, f: impl FnOnce() -> R) -> R {
     if a & 1 == 1 {
-        // the first (a >> 1) % 6 points are scheduled normally, then everybody else is suspended
-        let (r, pts) = rt::run_alone_after(((a >> 1) % 6) as u32, f);
+        // the first (a >> 1) % 32 points are scheduled normally (a peer may slip in anywhere inside
+        // the call), then everybody else is suspended
+        let (r, pts) = rt::run_alone_after(((a >> 1) % 32) as u32, f);
         upd(gi, |o| o.alone_points = Some(pts));
         r
     } else {
